@@ -235,38 +235,48 @@ def run_case(case):
         # ---- documented rejections
         x, c = mk(3, seed + 2)
         if me["ctx_shape"]:
-            x4, _ = mk(4, seed + 3)
-            r.count("rejection_probes")
-            try:
-                obj.log_prob(x4, c)
-                r.viol("accepts_mismatching_context", "%s.log_prob accepts a context whose row count differs from the inputs" % label, **det)
-            except ValueError:
-                pass
-            except ContractBroken:
-                r.viol("accepts_mismatching_context", "%s.log_prob accepts a context whose row count differs from the inputs" % label, **det)
-            except Exception as e:
-                r.viol("wrong_rejection", "%s.log_prob rejects a mismatching context with %s instead of ValueError" % (label, type(e).__name__),
-                       exc=repr(e)[:200], **det)
+            # every pair of differing row counts, in particular a single context row against several input rows (which would
+            # broadcast silently) and a single input row against several context rows
+            for nx_, nc_ in ((4, 3), (2, 1), (6, 1), (3, 1), (1, 3), (1, 2), (2, 3), (6, 3), (5, 2), (3, 5)):
+                xk, _ = mk(nx_, seed + 3)
+                _, ck = mk(nc_, seed + 4)
+                r.count("rejection_probes")
+                detk = dict(det, input_rows=nx_, context_rows=nc_)
+                try:
+                    obj.log_prob(xk, ck)
+                    r.viol("accepts_mismatching_context", "%s.log_prob accepts a context whose row count differs from the inputs" % label, **detk)
+                except ValueError:
+                    pass
+                except ContractBroken:
+                    r.viol("accepts_mismatching_context", "%s.log_prob accepts a context whose row count differs from the inputs" % label, **detk)
+                except Exception as e:
+                    r.viol("wrong_rejection", "%s.log_prob rejects a mismatching context with %s instead of ValueError" % (label, type(e).__name__),
+                           exc=repr(e)[:200], **detk)
         if can_sample:
             cc = c if needs_ctx else None
-            for bad in (0, -1, 2.0, "3", None):
-                for which in ("num_samples", "batch_size"):
-                    r.count("rejection_probes")
-                    try:
-                        if which == "num_samples":
-                            obj.sample(bad, cc)
-                        else:
-                            if bad is None:
-                                continue
-                            obj.sample(4, cc, batch_size=bad)
-                        r.viol("accepts_bad_count", "%s.sample accepts a non-positive / non-integer %s" % (label, which), value=repr(bad), **det)
-                    except TypeError:
-                        pass
-                    except ContractBroken:
-                        r.viol("accepts_bad_count", "%s.sample accepts a non-positive / non-integer %s" % (label, which), value=repr(bad), **det)
-                    except Exception as e:
-                        r.viol("wrong_rejection", "%s.sample rejects a bad %s with %s instead of TypeError" % (label, which, type(e).__name__),
-                               value=repr(bad), exc=repr(e)[:200], **det)
+            # a bad count must be rejected whatever the other count is (a negative num_samples that batch_size does not divide,
+            # a bad batch_size larger / smaller than num_samples, ...)
+            probes = []
+            for bad in (0, -1, -3, -7, 2.0, 2.5, "3", None):
+                for other in (None, 2, 3, 5):
+                    probes.append(("num_samples", bad, dict(batch_size=other), lambda b=bad, o=other: obj.sample(b, cc, batch_size=o)))
+            for bad in (0, -1, -3, 2.0, 2.5, "3"):
+                for other in (1, 4, 7):
+                    probes.append(("batch_size", bad, dict(num_samples=other), lambda b=bad, o=other: obj.sample(o, cc, batch_size=b)))
+            for which, bad, extra, call in probes:
+                r.count("rejection_probes")
+                try:
+                    out_ = call()
+                    r.viol("accepts_bad_count", "%s.sample accepts a non-positive / non-integer %s" % (label, which), value=repr(bad),
+                           other=extra, returned_shape=list(getattr(out_, "shape", [])), **det)
+                except TypeError:
+                    pass
+                except ContractBroken:
+                    r.viol("accepts_bad_count", "%s.sample accepts a non-positive / non-integer %s" % (label, which), value=repr(bad),
+                           other=extra, **det)
+                except Exception as e:
+                    r.viol("wrong_rejection", "%s.sample rejects a bad %s with %s instead of TypeError" % (label, which, type(e).__name__),
+                           value=repr(bad), other=extra, exc=repr(e)[:200], **det)
         r.sample({"subject": label, "event_shape": list(event), "contract_evaluations": counter["n"]})
     except Exception as e:
         r.inconc("harness failure: %r" % (e,))
